@@ -31,12 +31,16 @@ VARIANT_DROP = {
                "NATIVE_LITTLE_ENDIAN", "HAVE_MMINTRIN_H", "HAVE_EMMINTRIN_H",
                "HAVE_PMMINTRIN_H", "HAVE_TMMINTRIN_H", "HAVE_SMMINTRIN_H",
                "HAVE_AVXINTRIN_H", "HAVE_AVX2INTRIN_H", "HAVE_AVX512FINTRIN_H",
-               "HAVE_WMMINTRIN_H", "HAVE_RDRAND"],
+               "HAVE_WMMINTRIN_H", "HAVE_RDRAND",
+               "HAVE_EXPLICIT_BZERO", "HAVE_WEAK_SYMBOLS", "HAVE_MEMSET_S", "HAVE_EXPLICIT_MEMSET"],
 }
 
 SAN = ["-fsanitize=address,undefined", "-fno-sanitize=alignment",
        "-fno-sanitize-recover=undefined", "-fsanitize-recover=pointer-overflow,nonnull-attribute",
-       "-fno-omit-frame-pointer"]
+       "-fno-omit-frame-pointer",
+       # libsodium's configure adds -fno-strict-overflow (signed overflow wraps) where the compiler has it; with that flag clang drops the
+       # signed-overflow and shift-base checks.  The sanitizer builds judge the code by the C standard, as a compiler without the flag would.
+       "-fstrict-overflow"]
 
 FLAVOURS = {
     # name: (cc, cxx, cflags for library objects, cflags for harness, link flags)
@@ -255,6 +259,8 @@ def build_harness(name, sources, flavour, variant, extra_cflags=(), extra_ldflag
                 cmd = [cxx, cxxstd] + hflags
             cmd = cmd + ["-pthread", "-DSODIUM_STATIC=1", "-DSODIUM_VERIF=1",
                          "-DVERIF_VARIANT=\"%s\"" % variant, "-DVERIF_FLAVOUR=\"%s\"" % flavour,
+                         # lets a harness that includes a private header pick the same limb representation as the library it links
+                         "-DVERIF_LIB_HAVE_TI_MODE=%d" % (0 if "HAVE_TI_MODE" in VARIANT_DROP[variant] else 1),
                          "-I" + VERIF, "-I" + os.path.join(VERIF, "harness"),
                          "-I" + os.path.join(VERIF, "ref")] + include_flags(lbdir) + list(extra_cflags)
             jobs.append((cmd, sp, obj))
